@@ -9,6 +9,7 @@ theorems (`Properties/C06.lean`); specification: `Spec/Broker.lean`.
 -/
 import Mqtt.Proofs.BrokerFanoutHistory
 import Mqtt.Proofs.BrokerRefineCor
+import Mqtt.Proofs.BrokerRefineCorX
 
 set_option linter.unusedSimpArgs false
 
@@ -515,5 +516,23 @@ theorem C08_refines_reference (es : List Ev) (hok : okRun {} es = true) (c id : 
     rw [List.all_eq_true]; exact hg
   exact ⟨hR.rets, (Mqtt.Proofs.BrokerRefine.reach_step es hok _ hokev).2.1,
     (Mqtt.Proofs.BrokerRefine.subscribe_refines hR c hl id ts hg).1⟩
+
+open Mqtt.Proofs.BrokerRefine (EvX okRunX runX specRunX) in
+open Mqtt.Spec.Broker (Accepts pubOf wild) in
+/-- **C08_refines_reference after a history with failed handshakes** (Proofs/BrokerRefineFail.lean:
+`BrokerX_refines_spec`).  The same statement for the retained messages and the answer to a SUBSCRIBE, after
+a history that may also contain first packets whose answer could not be written (`EvX.failFirst`). -/
+theorem C08_refines_reference_with_failed_handshakes (es : List EvX) (hok : okRunX {} es = true) (c id : Nat)
+    (hl : (runX {} es).1.alive c = true) (ts : List (Bytes × Nat)) (hg : ∀ tq ∈ ts, good tq.1 = true) :
+    RetInv (runX {} es).1.topics.rroot (specRunX {} es).1.rets ∧
+    Accepts (Mqtt.Spec.Broker.step (specRunX {} es).1 (.packet c (.subscribe id ts))).2
+      (step (runX {} es).1 (.packet c (.subscribe id ts))).2 ∧
+    ∃ rest, (step (runX {} es).1 (.packet c (.subscribe id ts))).2 =
+        .send c (.suback id (ts.map (fun t => subCode t.1 t.2))) :: rest ∧
+      ((rest.filterMap pubOf).map wild).Perm
+        ((((ts.zip (ts.map (fun t => subCode t.1 t.2))).filter (fun p => p.2 != 0x80)).map
+          (fun p => Mqtt.Spec.Broker.retainedFor (specRunX {} es).1 p.1.1 p.2)).flatten) ∧
+      ∀ y ∈ rest, ∃ w, y = .send c (.publish w) ∧ w.retain = true :=
+  Mqtt.Proofs.BrokerRefine.retained_refinesX es hok c id hl ts hg
 
 end Mqtt.Properties.C08
